@@ -38,16 +38,16 @@ TECHNIQUE = "runtime monitoring: render/parse round-trip oracle over generated d
 
 TOK = r"""(?P<SPACE>\s+)|(?P<COMMENT>\#.*)|(?P<WORD>[a-z]+)|(?P<NUMBER>[0-9]+)
     |(?P<BO>\[)|(?P<BC>\])|(?P<CO>\{)|(?P<CC>\})|(?P<COMMA>,)|(?P<COLON>:)|(?P<LT><)|(?P<GT>>)|(?P<SC>;)
-    |(?P<PO>\()|(?P<PC>\))|(?P<PIPE>\|)|(?P<PCT>%)"""
+    |(?P<PO>\()|(?P<PC>\))|(?P<PIPE>\|)|(?P<PCT>%)|(?P<DOT>\.)|(?P<TILDE>~)"""
 SYN = {'BO': '[', 'BC': ']', 'CO': '{', 'CC': '}', 'COMMA': ',', 'COLON': ':', 'LT': '<', 'GT': '>',
-       'SC': ';', 'PO': '(', 'PC': ')', 'PIPE': '|', 'PCT': '%'}
+       'SC': ';', 'PO': '(', 'PC': ')', 'PIPE': '|', 'PCT': '%', 'DOT': '.', 'TILDE': '~'}
 
 
 def gen_options(rng):
     o = dict(delim=rng.random() < 0.75, afd=rng.random() < 0.5, mafd=rng.random() < 0.5,
              bdelim=rng.random() < 0.5, b2delim=rng.random() < 0.5, nullable_item=False,
              bmafd=rng.random() < 0.5, bm_same=rng.random() < 0.4, b_nullable=False, seq_any=rng.random() < 0.3,
-             seq_containers=rng.random() < 0.3)
+             seq_containers=rng.random() < 0.3, aux_first=rng.random() < 0.3)
     if o['delim'] and not o['afd'] and rng.random() < 0.4:
         o['nullable_item'] = True
     if o['bdelim'] and rng.random() < 0.4:
@@ -56,16 +56,28 @@ def gen_options(rng):
 
 
 def mk_parser(o):
+    if o.get('aux_first'):
+        # some other part of the program has built a parser for single values (same productions, another start
+        # symbol) and used it before the parser under observation is built
+        aux = llparser.LLParser(TOK, synonyms=SYN, productions=mk_prods(o), start_symbol_name='VALUE')
+        assert aux.parse("[a]" if o['delim'] or True else "") is not None
+    return llparser.LLParser(TOK, synonyms=SYN, productions=mk_prods(o))
+
+
+def mk_prods(o):
     seq_symbols = ['WORD', 'NUMBER', 'PAR'] + (['LIST', 'MAP'] if o['seq_containers'] else [])
     if o.get('seq_any'):
         # "any token except ..." in front of the explicitly named element symbols
-        seq_symbols = [AnyTokenExcept('[', ']', '{', '}', ',', ':', '<', '>', ';', '(', ')', '|', '%')] + seq_symbols[2:]
+        seq_symbols = [AnyTokenExcept('[', ']', '{', '}', ',', ':', '<', '>', ';', '(', ')', '|', '%', '.', '~')] + seq_symbols[2:]
     prods = {
         'E': [('BL2', '|', 'BMAP', '|', 'VALUE', ';', 'OPT_TAIL')],
         'BMAP': MapProds(None, 'WORD', ':', 'WORD' if o['bm_same'] else 'NUMBER', ',', None,
                          allow_final_delimiter=o['bmafd']),
         'OPT_TAIL': [('OLIST', 'OMAP', 'BLIST')],
-        'VALUE': [('WORD',), ('NUMBER',), ('LIST',), ('MAP',), ('SEQ_H',), ('MX_H',)],
+        'VALUE': [('WORD',), ('NUMBER',), ('LIST',), ('MAP',), ('SEQ_H',), ('MX_H',), ('DS_H',)],
+        # a sequence whose terminator is one of its possible elements: "~ a . b ." is [a, '.', b]
+        'DS_H': [('~', 'DSEQ', '.')],
+        'DSEQ': ProdSequence('WORD', 'NUMBER', '.'),
         # a list whose items are directly bracket-less lists: "% [a, b; ; c]"
         'MX_H': [('%', 'MATRIX')],
         'MATRIX': ListProds('[', 'ROW', ';', ']', allow_final_delimiter=False),
@@ -83,7 +95,7 @@ def mk_parser(o):
         'BITEM': [('NUMBER',), None],
         'BL2': ListProds(None, 'WORD', ',' if o['b2delim'] else None, None),
     }
-    return llparser.LLParser(TOK, synonyms=SYN, productions=prods)
+    return prods
 
 
 ATOMS = ["a", "bc", "7", "42", "zz", "q", "0"]
@@ -112,6 +124,8 @@ def gen_val(rng, d, o, in_seq=False):
         return ('X', rows)
     if in_seq:
         return rng.choice(ATOMS)
+    if r < 0.9:
+        return ('D', [rng.choice(ATOMS + [".", "."]) for _ in range(rng.choice([0, 1, 2, 3, 5]))])
     elems = []
     for _ in range(rng.choice([0, 1, 3, 5])):
         r2 = rng.random()
@@ -185,6 +199,8 @@ class Renderer:
         if k == 'X':
             return "%" + ws(rng) + "[" + ws(rng) + (ws(rng) + ";" + ws(rng)).join(
                 (ws(rng) + "," + ws(rng)).join(row) for row in x) + ws(rng) + "]"
+        if k == 'D':
+            return "~" + ws(rng) + sep(rng).join(x) + (sep(rng) if x else ws(rng)) + "."
         if k == 'S':
             parts = []
             for e in x:
@@ -209,6 +225,8 @@ def expect(v):
                                       else expect(e) for e in x], '>'])
     if k == 'X':
         return ('TE', 'MX_H', ['%', [list(row) for row in x]])
+    if k == 'D':
+        return ('TE', 'DS_H', ['~', list(x), '.'])
     raise AssertionError(k)
 
 
@@ -289,6 +307,8 @@ def depth_info(v, d=0):
     k, x = v
     if k == 'X':
         return d + 2, True, False
+    if k == 'D':
+        return d + 1, False, False
     kids = [i for i in x] if k in ('L', 'S') else [vv for _, vv in x]
     md, hl, hm = d + 1, k == 'L', k == 'M'
     for c in kids:
@@ -302,7 +322,7 @@ def count_containers(v):
     if not isinstance(v, tuple) or v[0] == 'P':
         return 0
     k, x = v
-    if k == 'X':
+    if k in ('X', 'D'):
         return 0       # (the matrix never takes part in the final-delimiter cases)
     kids = x if k in ('L', 'S') else [vv for _, vv in x]
     return (1 if k in ('L', 'M') else 0) + sum(count_containers(c) for c in kids)
@@ -312,7 +332,7 @@ def has_repeated_keys(v):
     if not isinstance(v, tuple) or v[0] == 'P':
         return False
     k, x = v
-    if k == 'X':
+    if k in ('X', 'D'):
         return False
     if k == 'M':
         keys = [kk for kk, _ in x]
@@ -430,7 +450,7 @@ def count_seq_containers(v):
     if not isinstance(v, tuple) or v[0] == 'P':
         return 0
     k, x = v
-    if k == 'X':
+    if k in ('X', 'D'):
         return 0
     if k == 'S':
         return sum(1 for e in x if isinstance(e, tuple) and e[0] in ('L', 'M'))
